@@ -289,31 +289,37 @@ func SideBuiltUnderCmpNE(rel, typ, field string) SideFn {
 					if pc == nil {
 						pc = core.NewPathConds(g)
 					}
-					want := core.Canon(st.Val)
-					for _, term := range pc.At(b) {
-						ok := false
-						for _, l := range term {
-							cmp, rel, is := core.DecodeCond(l.Cond)
-							if !is || cmp.B == nil {
-								continue
-							}
-							if !l.Val {
-								rel = core.ANY &^ rel
-							}
-							if rel&core.EQ != 0 {
-								continue
-							}
-							a := core.Canon(core.Strip(cmp.A))
-							if a != want && a != "&("+want+")" {
-								continue
-							}
-							if one, isOne := bigRatConst(cmp.B); isOne && one == 1 {
-								ok = true
+					if comparedUnequalToOne(pc, b, st.Val) {
+						continue
+					}
+					// a reporting helper that is handed the value: the comparison is owed by its callers
+					okCallers := false
+					if p := forwardedParam(resolveLocal(st.Val), g); p != nil {
+						if p0, isP := resolveLocal(st.Val).(*ssa.Parameter); isP {
+							p = p0
+						}
+						idx := paramIndex(g, p)
+						nc := 0
+						okCallers = true
+						for _, h := range c.P.ModuleFunctions() {
+							var hpc *core.PathConds
+							for _, ci := range core.Calls(h) {
+								if ci.Common().StaticCallee() != g || idx < 0 || idx >= len(ci.Common().Args) {
+									continue
+								}
+								nc++
+								if hpc == nil {
+									hpc = core.NewPathConds(h)
+								}
+								if !comparedUnequalToOne(hpc, ci.Block(), ci.Common().Args[idx]) {
+									okCallers = false
+								}
 							}
 						}
-						if !ok {
-							return false, typ + " is built at " + c.P.Pos(st.Pos()) + " on a path where its " + field + " was not compared unequal to one"
-						}
+						okCallers = okCallers && nc > 0
+					}
+					if !okCallers {
+						return false, typ + " is built at " + c.P.Pos(st.Pos()) + " on a path where its " + field + " was not compared unequal to one"
 					}
 				}
 			}
@@ -323,6 +329,38 @@ func SideBuiltUnderCmpNE(rel, typ, field string) SideFn {
 		}
 		return true, ""
 	}
+}
+
+// comparedUnequalToOne: on every path to b the value v (a big.Rat) was compared with one and
+// found different.
+func comparedUnequalToOne(pc *core.PathConds, b *ssa.BasicBlock, v ssa.Value) bool {
+	want := core.Canon(v)
+	for _, term := range pc.At(b) {
+		ok := false
+		for _, l := range term {
+			cmp, rel, is := core.DecodeCond(l.Cond)
+			if !is || cmp.B == nil {
+				continue
+			}
+			if !l.Val {
+				rel = core.ANY &^ rel
+			}
+			if rel&core.EQ != 0 {
+				continue
+			}
+			a := core.Canon(core.Strip(cmp.A))
+			if a != want && a != "&("+want+")" {
+				continue
+			}
+			if one, isOne := bigRatConst(cmp.B); isOne && one == 1 {
+				ok = true
+			}
+		}
+		if !ok {
+			return false
+		}
+	}
+	return true
 }
 
 // bigRatConst: big.NewRat(k, 1) / big.NewInt(k).
